@@ -4,7 +4,53 @@
    the translator regenerates from the current /repo on every run, so everything below is re-proved
    against what the source says now. *)
 From AG Require Import Base.Prelude Base.Res Base.Bytes Ident.Dispatch Ident.Names Ident.Maps
-  Ident.Maps_proofs Gen.Boards Gen.WireMaps Gen.PadMaps.
+  Ident.Maps_proofs Ident.Names_proofs Gen.Boards Gen.WireMaps Gen.PadMaps.
+
+(* ----------------------------------------------------------------------------------------------- names *)
+(* among ALL byte strings exactly the documented names are accepted, each with its documented channel;
+   documented_names is computed from ALPHA16BOARDS and PADWING_BOARDS:
+   B/C + Alpha16 board + base-16/base-32 digit, PC + PadWing board, ATAT, TRBA, MCVX *)
+Theorem C08_names_exact : forall s k, parse_main s = Ok k <-> In (s, k) documented_names.
+Proof. exact names_exact_lemma. Qed.
+Print Assumptions C08_names_exact.
+
+(* CBF1-4 and SEQ2 for their own parsers *)
+Theorem C08_cb_names_exact : forall s i, parse_cb s = Ok i <-> In (s, i) documented_cb_names.
+Proof. exact cb_names_exact_lemma. Qed.
+Print Assumptions C08_cb_names_exact.
+Theorem C08_seq2_names_exact : forall s u, parse_seq2 s = Ok u <-> In (s, u) documented_seq2_names.
+Proof. exact seq2_names_exact_lemma. Qed.
+Print Assumptions C08_seq2_names_exact.
+
+(* distinct names denote distinct channels (and no name is documented twice) *)
+Theorem C08_names_injective : NoDup (map snd documented_names) /\ NoDup (map fst documented_names).
+Proof. exact names_injective_lemma. Qed.
+Print Assumptions C08_names_injective.
+
+(* channels are identified by table rows; rows are distinct boards (names, MAC addresses, device ids) *)
+Theorem C08_board_rows_distinct :
+  NoDup (map fst alpha16_boards) /\ NoDup (map snd alpha16_boards)
+  /\ NoDup (map (fun t => fst (fst t)) padwing_boards) /\ NoDup (map (fun t => snd (fst t)) padwing_boards)
+  /\ NoDup (map snd padwing_boards) /\ NoDup chronobox_names.
+Proof. exact board_rows_distinct_lemma. Qed.
+Print Assumptions C08_board_rows_distinct.
+
+(* no parser panics on any Rust string (= well-formed UTF-8 byte list of any length) *)
+Theorem C08_names_total : forall s, utf8b s = true ->
+  parse_main s <> Panic /\ parse_alpha16 s <> Panic /\ parse_adc16 s <> Panic /\ parse_adc32 s <> Panic
+  /\ parse_pwb s <> Panic /\ parse_trg s <> Panic /\ parse_trb3 s <> Panic /\ parse_mcvx s <> Panic
+  /\ parse_cb s <> Panic /\ parse_seq2 s <> Panic.
+Proof. exact names_total_lemma. Qed.
+Print Assumptions C08_names_total.
+
+(* on arbitrary byte lists (also ill-formed UTF-8) the only panicking input of the model is "PC" followed by
+   a continuation byte at the slice index -- not a &str *)
+Theorem C08_names_total_bytes : forall s,
+  parse_alpha16 s <> Panic /\ parse_adc16 s <> Panic /\ parse_adc32 s <> Panic
+  /\ parse_trg s <> Panic /\ parse_trb3 s <> Panic /\ parse_mcvx s <> Panic /\ parse_cb s <> Panic /\ parse_seq2 s <> Panic
+  /\ (parse_pwb s = Panic <-> exists c d, s = [80; 67; c; d] /\ is_cont c = true).
+Proof. exact names_total_bytes_lemma. Qed.
+Print Assumptions C08_names_total_bytes.
 
 (* ------------------------------------------------------------------------------------------------ maps *)
 (* for EVERY run number: if a wire map is selected, (installed Alpha16 board, channel) -> wire is total,
@@ -81,6 +127,15 @@ Proof. exact column_wires_inverse_lemma. Qed.
 Print Assumptions C08_column_wires_inverse.
 
 (* ---------------------------------------------------------------------------------------- non-vacuity *)
+Example C08_names_nonvacuous :
+  length documented_names = 458%nat /\ length documented_cb_names = 4%nat
+  /\ parse_main [66; 48; 57; 70] = Ok (KAdc16 0 15) /\ parse_main [67; 49; 56; 86] = Ok (KAdc32 7 31)
+  /\ (exists k, parse_main [66; 48; 57; 71] = Err k) /\ (exists k, parse_main [67; 48; 57; 87] = Err k)
+  /\ (exists k, parse_main [66; 48; 57; 102] = Err k)
+  /\ parse_main [80; 67; 48; 48] = Ok (KPwb 0) /\ parse_cb [67; 66; 70; 51] = Ok 2
+  /\ utf8b [80; 67; 195; 169] = true /\ utf8b [80; 67; 169; 48] = false /\ parse_pwb [80; 67; 169; 48] = Panic.
+Proof. vm_compute. repeat split; try reflexivity; eexists; reflexivity. Qed.
+
 Example C08_maps_nonvacuous :
   wire_dispatch 5000 = Some (0, 0) /\ pwb_dispatch 5000 = Some 0 /\ pwb_dispatch 10418 = Some 1
   /\ wire_dispatch 2940 = None /\ pwb_dispatch 4417 = None
